@@ -37,7 +37,13 @@ func (c *vC11Case) violation(sig, what string) {
 }
 
 func (c *vC11Case) ident(i int) (string, string, int32) {
-	return fmt.Sprintf("%sc%d", c.prefix, i/2), "foo", int32(i % 2)
+	// cursors of one consumer on several stream partitions, among them names and numbers that only the
+	// separators of the cursor key keep apart ("foo1" partition 0, "foo" partition 10)
+	v := []struct {
+		stream string
+		part   int32
+	}{{"foo", 0}, {"foo", 1}, {"foo1", 0}, {"foo", 10}}[i%4]
+	return fmt.Sprintf("%sc%d", c.prefix, i/4), v.stream, v.part
 }
 
 func (c *vC11Case) keyOf(i int) string {
